@@ -298,6 +298,12 @@ class RoundTrip(Relation):
                 ctx.fail(f'{type(A).__name__} | parse(serialize(P1)) != P1',
                          _diff(A, B))
         text3 = P2.serialize(format='ds9', precision=p)
+        from vf.ops import parsed_independent
+        import warnings as _w
+        with _w.catch_warnings():
+            _w.simplefilter('ignore')
+            parsed_independent(ctx, P2, lambda: Regions.parse(
+                text2, format='ds9'), 'parse')
         ctx.check(text3 == text2, 'fixed point | serialising again changes the '
                   'text', lambda: _textdiff(text2, text3))
         # (d) determinism in-process
